@@ -995,5 +995,9 @@ def units(prop):
 CARRIES = {
     "C03": [":yaml_load", ":json_or_yaml_load", ":load_list_or_dict", ":get_loader_exceptions", ":get_load_value_mode", ":jsonnet_load"],
     "C05": [":yaml_load", ":json_load", ":json_or_yaml_load", ":load_list_or_dict", ":get_load_value_mode", ":get_loader", ":set_loader", ":jsonnet_load", ":toml_load", ":set_omegaconf_loader"],
+    # save writes every file through dump_using_format: the parser's header goes into formats that have comments only (a header in a .json sub-file makes the saved
+    # configuration unreadable), an unknown format is refused before anything is opened
+    "C18": [":dump_using_format", ":check_valid_dump_format", ":json_indented_dump", ":yaml_dump"],
+    "C02": [":yaml_load"],
     "C01": [":dump_using_format", ":check_valid_dump_format", ":yaml_dump", ":yaml_comments_dump", ":json_compact_dump", ":json_indented_dump", ":set_dumper", ":toml_dump", ":get_yaml_default_dumper", "remove_implicit_resolver"],
 }
